@@ -132,7 +132,7 @@ func (eng *Engine) runProperty(prop, only string) *PropRun {
 		jobs = append(jobs, job{l: l})
 	}
 	pr.Results = make([]FuncResult, len(jobs))
-	parallelDo(len(jobs), 6, func(i int) {
+	parallelDo(len(jobs), 8, func(i int) {
 		j := jobs[i]
 		if j.l != nil {
 			pr.Results[i] = eng.verifyLemmaSafe(j.l)
